@@ -73,8 +73,8 @@ M('c16c-2xx-range', 'C16', 'break', RQ,
   '    if ((connp->in_tx->response_status_number >= 200) && (connp->in_tx->response_status_number <= 299)) {\n        // TODO Check',
   '    if ((connp->in_tx->response_status_number >= 200) && (connp->in_tx->response_status_number <= 399)) {\n        // TODO Check', 'C16.c')
 M('c16d-flag-not-cleared', 'C16', 'break', TX,
-  '            tx->connp->out_data_other_at_tx_end = 0;\n            return HTP_DATA_OTHER;',
-  '            return HTP_DATA_OTHER;', 'C16.d')
+  '            tx->connp->out_data_other_at_tx_end = 0;\n            yield = 1;',
+  '            yield = 1;', 'C16.d')
 M('c16d-yield-without-intx-test', 'C16', 'break', TX,
   '        if ((tx->connp->in_status == HTP_STREAM_DATA_OTHER) && (tx->connp->in_tx == tx->connp->out_tx)) {',
   '        if ((tx->connp->in_status == HTP_STREAM_DATA_OTHER)) {', 'C16.d')
@@ -883,3 +883,11 @@ M('c12i-d38-u-encoded-nul-does-not-terminate', 'C12', 'break', 'htp/htp_util.c',
   '                                    if (cfg->decoder_cfgs[HTP_DECODER_URL_PATH].nul_encoded_terminates) {\n                                        bstr_adjust_len(path, wpos);\n                                        return HTP_OK;\n                                    }\n', '', 'C12.i')
 M('c12i-raw-nul-terminate-test-dropped', 'C12', 'break', 'htp/htp_util.c',
   '                if (cfg->decoder_cfgs[HTP_DECODER_URL_PATH].nul_raw_terminates) {', '                if (0) {', 'C12.i')
+
+# ---------------- C07.m bomb divisor current (D39)
+M('c07m-d39-request-bytes-counted-after-the-hand-over', 'C07', 'break', None, None, None, 'C07.m',
+  edits=[(TX, '    // Keep track of body size before decompression.\n    tx->request_message_len += d.len;\n\n    switch(tx->request_content_encoding) {', '    switch(tx->request_content_encoding) {'),
+         (RQ, '    connp->in_stream_offset += bytes_to_consume;\n    connp->in_chunked_length -= bytes_to_consume;', '    connp->in_stream_offset += bytes_to_consume;\n    connp->in_tx->request_message_len += bytes_to_consume;\n    connp->in_chunked_length -= bytes_to_consume;'),
+         (RQ, '    connp->in_stream_offset += bytes_to_consume;\n    connp->in_body_data_left -= bytes_to_consume;', '    connp->in_stream_offset += bytes_to_consume;\n    connp->in_tx->request_message_len += bytes_to_consume;\n    connp->in_body_data_left -= bytes_to_consume;')])
+M('c06c-request-bytes-counted-twice', 'C06', 'break', RQ,
+  '    connp->in_stream_offset += bytes_to_consume;\n    connp->in_body_data_left -= bytes_to_consume;', '    connp->in_stream_offset += bytes_to_consume;\n    connp->in_tx->request_message_len += bytes_to_consume;\n    connp->in_body_data_left -= bytes_to_consume;', 'C06')
